@@ -81,6 +81,15 @@ func (g *Gen) frameEnv(f *Frame, st *State, results []Term) *Env {
 		env.vars[name] = Arg{t: t}
 	}
 	env.frame = f
+	if f.loopRange != nil {
+		if _, isMap := types.Unalias(f.loopRange.X.Type()).Underlying().(*types.Map); !isMap {
+			// "looppos": byte position of the next rune of the enclosing `for ... range string` loop
+			if it, ok := f.vals[f.loopRange]; ok {
+				g.compDecl("IT", "(Array Int Int)")
+				env.vars["looppos"] = Arg{t: intT(fmt.Sprintf("(select %s %s)", g.get(st, "IT"), it.S))}
+			}
+		}
+	}
 	// loop-carried source variables are visible by their source name inside loop clauses
 	// loop-carried source variables (of this loop and of the enclosing ones) by their source name
 	for name, phi := range f.loopNames {
@@ -236,6 +245,12 @@ func (env *Env) lval(e ast.Expr) *Loc {
 		}
 		return l
 	case *ast.IndexExpr:
+		if bl := env.tryLval(e.X); bl != nil {
+			if _, isArr := types.Unalias(bl.typ).Underlying().(*types.Array); isArr {
+				i := env.tr(e.Index)
+				return bl.subIdx(i.S)
+			}
+		}
 		x := env.tr(e.X)
 		if sl, ok := types.Unalias(x.T).Underlying().(*types.Slice); ok {
 			i := env.tr(e.Index)
@@ -824,6 +839,25 @@ func (env *Env) call(e *ast.CallExpr) Term {
 	case "int", "int64", "uint", "uint64", "int32", "uint32", "rune", "byte":
 		argn(1)
 		return env.tr(e.Args[0])
+	case "nrecv":
+		argn(1)
+		ch := env.tr(e.Args[0])
+		ct, ok := types.Unalias(ch.T).Underlying().(*types.Chan)
+		if !ok {
+			cerr("nrecv of non-channel")
+		}
+		cnt, _ := g.recvComp(ct)
+		return intT(fmt.Sprintf("(select %s %s)", g.get(env.st, cnt), ch.S))
+	case "chanitem":
+		// chanitem(ch, k): the k-th value delivered by channel ch
+		argn(2)
+		ch, k := env.tr(e.Args[0]), env.tr(e.Args[1])
+		ct, ok := types.Unalias(ch.T).Underlying().(*types.Chan)
+		if !ok {
+			cerr("chanitem of non-channel")
+		}
+		_, fn := g.recvComp(ct)
+		return Term{fmt.Sprintf("(%s %s %s)", fn, ch.S, k.S), g.d.sortOf(ct.Elem()), ct.Elem()}
 	case "nsent", "lastsent":
 		// ghost history of a channel: how many values were sent on it and the last one
 		argn(1)
@@ -976,6 +1010,12 @@ func (g *Gen) modLocs(env *Env, m *Clause) []modLoc {
 			t := env.resolveType(c.Args[0])
 			comp, _ := g.elemComp(t)
 			return []modLoc{{whole: comp}}
+		}
+		if id, ok := c.Fun.(*ast.Ident); ok && id.Name == "received" {
+			x := env.tr(c.Args[0])
+			ct := types.Unalias(x.T).Underlying().(*types.Chan)
+			cnt, _ := g.recvComp(ct)
+			return []modLoc{{whole: cnt, exceptRef: x.S}}
 		}
 		if id, ok := c.Fun.(*ast.Ident); ok && id.Name == "sent" {
 			x := env.tr(c.Args[0])
